@@ -19,7 +19,7 @@ def DefaultMaxControlConnections : Nat := 5000
 end lim_session
 
 namespace Skel
-def L17_ActivateConnectionCode : List String := ["connCodeRepo.GetByCode", "portMappingRepo.GetClientPortMappings", "@s.maxActiveMappingsPerClient", "@s.maxActiveMappingsPerClient", "@s.maxActiveMappingsPerClient", "connCode.Activate", "portMappingService.CreatePortMapping", "connCodeRepo.Update", "portMappingService.DeletePortMapping"]
+def L17_ActivateConnectionCode : List String := ["connCodeRepo.GetByCode", "mappingQuotaMu.Lock", "defer mappingQuotaMu.Unlock", "portMappingRepo.GetClientPortMappings", "@s.maxActiveMappingsPerClient", "@s.maxActiveMappingsPerClient", "@s.maxActiveMappingsPerClient", "connCode.Activate", "portMappingService.CreatePortMapping", "connCodeRepo.Update", "portMappingService.DeletePortMapping"]
 def L17_CloseConnection : List String := ["connLock.Lock", "delete", "connLock.Unlock", "RemoveControlConnection", "RemoveTunnelConnection"]
 def L17_CodeCreate : List String := ["{ret", "}", "{ret", "}", "storage.Set", "{ret", "}", "storage.Set", "{ret", "storage.Delete", "}", "{ret", "}", "listStore.AppendToList", "{ret", "storage.Delete", "storage.Delete", "}"]
 def L17_CodeGetByCode : List String := ["storage.Get"]
